@@ -34,7 +34,7 @@ def momentum_traces(chk, n, name="c04", prefix="trace:"):
     def has(pe, kinds):
         return any(x["e"] == "momentum" and x["found"] in kinds for x in pe)
     nosync_runs = [r for r in runs if has(r[1], ("nosync",))]
-    bad_runs = [r for r in runs if has(r[1], ("scaled", "rescaled", "affine", "partial", "no"))]
+    bad_runs = [r for r in runs if has(r[1], ("scaled", "rescaled", "affine", "partial", "no", "otherdist"))]
     if nosync_runs and not bad_runs:
         # no 32-byte seed handed to new_chain reproduces the first momentum, not even up to scale: the harness cannot tell
         # where the chain's stream is (a re-seeding refactor, or a momentum that is not a function of the stream at all)
@@ -65,7 +65,7 @@ def momentum_traces(chk, n, name="c04", prefix="trace:"):
                 key = "velocity_is_a_rescaled_standard_normal_sample"
             elif ev.get("found") == "partial":
                 key = "only_part_of_the_momentum_was_redrawn"
-            elif ev.get("found") == "no":
+            elif ev.get("found") in ("no", "otherdist"):
                 key = "velocity_is_not_a_standard_normal_sample_of_the_stream"
             elif ev.get("found") == "yes":
                 key = "stream_words_reused_or_too_few"
